@@ -15,6 +15,7 @@ import logging
 import re
 import os
 import struct
+import threading
 import yaml
 from collections import namedtuple
 
@@ -387,6 +388,7 @@ class SessionHandler:
     init = 0
     id = 0
     optional = "bromelia"
+    lock = threading.Lock()
 
 
     def __init__(self):
@@ -399,10 +401,13 @@ class SessionHandler:
         #: recommended format: 
         #: <DiameterIdentity>;<high 32 bits>;<low 32 bits>[;<optional value>]
 
-        SessionHandler._verify_session_id(previous, current=data)
+        #: Counting and reading the counter form one step: Session-Ids are 
+        #: generated from several threads (one per request being handled).
+        with SessionHandler.lock:
+            SessionHandler._verify_session_id(previous, current=data)
 
-        high = SessionHandler.init
-        low = SessionHandler.id
+            high = SessionHandler.init
+            low = SessionHandler.id
         optional = SessionHandler.optional
 
         return f"{data};{high};{low};{optional}"
